@@ -281,6 +281,66 @@ impl World {
                 }
             }
         }
+        // ---- ghost: probe outstanding per peer. Set when an entry-carrying append goes to a peer that is (still) in
+        // Probe state; cleared by anything that may legitimately let the leader probe again: any call that
+        // originates from that peer or is about it, EXCEPT an append acknowledgement that carries no news
+        // (not a rejection, index <= matched: a stale or duplicated ack); a state change of the peer, a
+        // membership change, a new leadership. Independent of the library's own `paused` flag.
+        {
+            let about: Option<u64> = match c.kind {
+                CallKind::Step(m) => {
+                    let stale_ack = m.get_msg_type() == MessageType::MsgAppendResponse
+                        && !m.reject
+                        && m.term == c.pre.term
+                        && c.pre.pr(m.from).map(|q| m.index <= q.matched && q.state == ProgressState::Probe).unwrap_or(false);
+                    if stale_ack { None } else { Some(m.from) }
+                }
+                CallKind::ReportSnapshot { peer, .. } | CallKind::ReportUnreachable { peer } => Some(*peer),
+                CallKind::Transfer { target } => Some(*target),
+                CallKind::Knob(Knob::MaxInflight { peer, .. }) => Some(*peer),
+                _ => None,
+            };
+            let conf_changed = c.pre.conf != c.post.conf || matches!(c.kind, CallKind::ApplyConf { .. });
+            let node = self.nodes.get_mut(&n).unwrap();
+            if !same_leader || conf_changed || matches!(c.kind, CallKind::EntriesFetched | CallKind::Bogus(_)) {
+                node.probe_outstanding.clear();
+            }
+            if let Some(f) = about {
+                node.probe_outstanding.remove(&f);
+            }
+            let keys: Vec<u64> = node.probe_outstanding.iter().cloned().collect();
+            for k in keys {
+                let still = c.pre.pr(k).map(|q| q.state == ProgressState::Probe).unwrap_or(false) && c.post.pr(k).map(|q| q.state == ProgressState::Probe).unwrap_or(false);
+                if !still {
+                    node.probe_outstanding.remove(&k);
+                }
+            }
+            if same_leader {
+                let out = node.probe_outstanding.clone();
+                let mut fire: Option<String> = None;
+                for m in c.emitted {
+                    if m.get_msg_type() == MessageType::MsgAppend && !m.entries.is_empty() {
+                        if out.contains(&m.to) {
+                            fire = Some(format!("leader {n} sent a second entry-carrying MsgAppend (anchor {}, {} entries) to probing peer {} in {} although the first is unanswered: nothing but stale acknowledgements arrived from that peer since", m.index, m.entries.len(), m.to, kind_name(c.kind)));
+                            break;
+                        }
+                    }
+                }
+                if !out.is_empty() {
+                    *self.stats.entry("chk.C13.probe_one").or_insert(0) += 1;
+                }
+                if let Some(d) = fire {
+                    let v = self.violation("C13", "C13.probe_one", n, d, "second_probe_after_stale_ack".into());
+                    self.gate(Err(v))?;
+                }
+                let node = self.nodes.get_mut(&n).unwrap();
+                for m in c.emitted {
+                    if m.get_msg_type() == MessageType::MsgAppend && !m.entries.is_empty() && c.post.pr(m.to).map(|q| q.state == ProgressState::Probe).unwrap_or(false) {
+                        node.probe_outstanding.insert(m.to);
+                    }
+                }
+            }
+        }
         if !same_leader {
             return Ok(());
         }
